@@ -36,10 +36,12 @@ def _resolve_face_area_weights(
         jax.Array: Area weights broadcastable to the Poynting component on ``axis``.
     """
     grid = config.resolved_grid
-    if grid is not None:
-        return grid.face_area(axis=axis, slice_tuple=slice_tuple)
-    spacing = config.uniform_spacing()
     shape = tuple(upper - lower for lower, upper in slice_tuple)
+    if grid is not None:
+        # ``face_area`` has size one along the normal axis; give every axis the same full slice
+        # shape so that the per-axis weights of keep_all_components=True can be stacked.
+        return jnp.broadcast_to(grid.face_area(axis=axis, slice_tuple=slice_tuple), shape)
+    spacing = config.uniform_spacing()
     return jnp.ones(shape, dtype=dtype) * spacing * spacing
 
 
